@@ -133,14 +133,17 @@ static uint32_t rnd() { return lcg(g_s); }
 static int make_table_fd(int n, int comp, const char *pfx, int pool, int refused) {
   WConfig c;
   c.comp = comp % 6;
-  c.block_size = 1024;
+  // half of the tables use big blocks of highly compressible values (decompression then has to grow its output buffer)
+  bool squeezable = (n + refused) % 2 == 0;
+  c.block_size = squeezable ? 8192 : 1024;
   c.pool = pool == 0 ? -1 : pool == 1 ? 0 : pool - 1;
   KVs kv;
   for (int i = 0; i < n; i++) {
     char k[32];
     snprintf(k, sizeof k, "%s%04d", pfx, i);
     BStr v;
-    v.glen = 20 + (uint32_t)(i % 7) * 30;
+    v.glen = squeezable ? 300 + (uint32_t)(i % 5) * 100 : 20 + (uint32_t)(i % 7) * 30;
+    v.gkind = squeezable ? 2 : 0;
     v.gseed = (uint32_t)i;
     kv.emplace_back(bytes(k), v.expand());
     if (refused && i % 5 == 4)
